@@ -463,6 +463,26 @@ fn vm_observe(vm: &VectorMap<usize, u32>, model: &BTreeMap<usize, u32>, universe
     if vals != model.values().copied().collect::<Vec<_>>() {
         return Some(format!("values() = {vals:?}"));
     }
+    // the consuming and mutable enumerations, on a copy
+    let idx2: Vec<usize> = vm.clone().into_indices().collect();
+    if idx2 != idx {
+        return Some(format!("into_indices() = {idx2:?}, indices() = {idx:?}"));
+    }
+    let vals2: Vec<u32> = vm.clone().into_values().collect();
+    if vals2 != vals {
+        return Some(format!("into_values() = {vals2:?}, values() = {vals:?}"));
+    }
+    let mut copy = vm.clone();
+    let it2: Vec<(usize, u32)> = copy.iter_mut().map(|(k, v)| (k, *v)).collect();
+    if it2 != want {
+        return Some(format!("iter_mut() = {it2:?}, the model has {want:?}"));
+    }
+    // "the largest currently-stored key index in the map if the map is non-empty"
+    let max = vm.max_key_index();
+    let want_max = model.keys().next_back().copied();
+    if max != want_max {
+        return Some(format!("max_key_index() = {max:?}, the largest key of the model is {want_max:?}"));
+    }
     None
 }
 
